@@ -229,8 +229,23 @@ def sec_cache(rec, n_threads=2, patches=None):
     c10_cache.run_section(rec, n_threads=n_threads, patches=patches)
 
 
+def sec_race(rec, patches=None):
+    """(iii) any other state that tasks share on the model: every method that assigns attributes of self, two tasks, all interleavings"""
+    from . import c10_race
+
+    c10_race.run_section(rec, patches=patches)
+
+
+def sec_binning_chunks(rec, patches=None):
+    """binning a dask tomogram does not depend on how it is chunked (executed by C15's real-dask section)"""
+    from .c15 import sec_blocksum_dask
+
+    sec_blocksum_dask(rec, shape=(5, 4, 7), b=2, patches=patches)
+
+
 def sections(tier):
-    S = [("multi", "checks.c10", "sec_multi", {}), ("loading", "checks.c10", "sec_loading", {})]
+    S = [("multi", "checks.c10", "sec_multi", {}), ("loading", "checks.c10", "sec_loading", {}), ("shared-state-race", "checks.c10", "sec_race", {}),
+         ("binning-chunks", "checks.c10", "sec_binning_chunks", {})]
     for kind in ("zncc", "ncc", "pcc", "fsc"):
         for up in (1, 2) if quick(tier) else (1, 2, 3, 5):
             for axis in (0, 2) if quick(tier) else (0, 1, 2):
@@ -242,7 +257,34 @@ def sections(tier):
 
 _LB = "acryo.loader._base"
 _AB = "acryo.alignment._base"
+_MEMO_OLD = """        mask = self._tilt_model.create_mask(
+            Rotation.from_quat(quat),
+            self.input_shape,  # type: ignore
+        )
+        return backend.asarray(mask)
+"""
+_MEMO_TWO_STORES = """        if getattr(self, "_wedge_quat", None) is not None and np.array_equal(self._wedge_quat, quat):
+            return backend.asarray(self._wedge_mask)
+        mask = self._tilt_model.create_mask(
+            Rotation.from_quat(quat),
+            self.input_shape,  # type: ignore
+        )
+        self._wedge_quat = np.array(quat)
+        self._wedge_mask = backend.asarray(mask)
+        return self._wedge_mask
+"""
+_MEMO_ATOMIC = """        cached = self.__dict__.get("_wedge")
+        if cached is not None and np.array_equal(cached[0], quat):
+            return backend.asarray(cached[1])
+        mask = self._tilt_model.create_mask(
+            Rotation.from_quat(quat),
+            self.input_shape,  # type: ignore
+        )
+        self._wedge = (np.array(quat), mask)
+        return backend.asarray(mask)
+"""
 MUTANTS = [
+    ("race:wedge-mask-memoised-in-two-attributes (seeded changes C10_1 / C10_4)", "checks.c10", "sec_race", {}, {_AB: [(_MEMO_OLD, _MEMO_TWO_STORES)]}),
     ("cache:revert-snapshot-fix", "checks.c10", "sec_cache", {"n_threads": 2}, {_AB: [("next(iter(list(self._dict.values())), None)", "next(iter(self._dict.values()), None)")]}),
     ("cache:check-then-act-on-keys", "checks.c10", "sec_cache", {"n_threads": 2}, {_AB: [("next(iter(list(self._dict.values())), None)", "next(iter(self._dict.items()), (None, None))[1]")]}),
     ("shape:revert-declared-formula", "checks.c10", "sec_landscape", {"kind": "zncc", "upsample": 1, "axis": 0},
